@@ -13,7 +13,7 @@ mkdir -p $scratch/BENIGN && cp benign/$name/equiv.py $scratch/BENIGN/
 git -C /repo worktree remove --force $scratch
 git -C /repo apply /verif/benign/$name/patch.diff || { echo "PATCH DOES NOT APPLY"; exit 1; }
 for tier in quick thorough; do
-  out=$(./check $prop $tier 2>&1 | grep -E "^(OK|VIOLATION|KNOWN|  failing|  broken|  disagreement|INFRA)" | cut -c1-260 | head -6)
+  out=$(timeout 1500 ./check $prop $tier 2>&1 | grep -E "^(OK|VIOLATION|KNOWN|  failing|  broken|  disagreement|INFRA)" | cut -c1-260 | head -6)
   echo "--- $tier:"; echo "$out"
 done
 git -C /repo checkout -- .
